@@ -11,7 +11,7 @@ TEXTCC = '<<"crlf", "lf", "trailws", "dots", "eq", "from", "bdry", "len75", "len
 BASE = dict(MAXP='2', MAXE='1', MAXA='1', ENCS='{"qp", "b64", "8bit"}', PENCS='{""}', FENCS='{""}',
             CCS=TEXTCC, PRODS='<<"string", "writer", "chunk3">>', SRCS='<<"seeker", "reader", "file", "iofs", "buffer">>',
             ROTS='{0}', BOUNDARIES='{""}', DELS='{0}', HDRS='{<<>>}', PDESCS='{""}', FDESCS='{""}', FNAMES='{""}', FCIDS='{""}', OPSEQS='{<<"WriteTo">>}', FAULTS=NOFAULT, ROUNDTRIP='{FALSE}',
-            SMIMES='{[key |-> "", inter |-> FALSE]}', MWS='{""}', STYLES='{""}', PGPS='{""}')
+            SMIMES='{[key |-> "", inter |-> FALSE]}', MWS='{""}', STYLES='{""}', PGPS='{""}', CHARSETS='{""}', PCHARSETS='{""}')
 
 
 def cfg(**kw):
@@ -323,6 +323,31 @@ STAGES['C11']['thorough'].append(
                                            OPSEQS='{<<a, b, c, d>> : a, c \\in {"WriteTo", "Reader", "FailSinkLate", "FailSinkMid", "FailSink"}, b, d \\in {"Write", "File", "FailSinkLate", "UpdateReader", "TempFile", "SkipMw", "Sendmail"}}')))
 
 
+# charsets other than UTF-8: a message in ISO-8859-1 (the caller's header texts, descriptions and file names are ISO-8859-1 octets and
+# are labelled so), parts with a charset that differs from the message's (their descriptions are header text of the MESSAGE)
+STAGES['C01']['quick'].append(
+    ('charsets', 'MimeBuild', cfg(MAXP='2', MAXE='1', MAXA='1', ENCS='{"qp", "b64"}', CHARSETS='{"", "latin1"}', PCHARSETS='{"", "latin1", "utf8"}', STYLES='{"", "set"}',
+                                  FNAMES='{"", "utf8", "longutf8"}', PDESCS='{"", "utf8"}', FDESCS='{"", "utf8"}', CCS='<<"utf8", "crlf", "bin">>')))
+STAGES['C01']['thorough'].append(
+    ('charsets', 'MimeBuild', cfg(MAXP='3', MAXE='2', MAXA='2', ENCS='{"qp", "b64", "8bit"}', CHARSETS='{"", "latin1"}', PCHARSETS='{"", "latin1", "utf8"}', STYLES='{"", "set"}',
+                                  FNAMES='{"", "utf8", "longutf8", "path"}', PDESCS='{"", "utf8"}', FDESCS='{"", "utf8"}', CCS='<<"utf8", "crlf", "bin">>')))
+STAGES['C02']['quick'].append(
+    ('charsets-header-setters', 'MimeBuild', cfg(MAXP='1', MAXE='0', MAXA='0', ENCS='{"qp", "b64", "8bit"}', CCS='<<"crlf">>', CHARSETS='{"latin1"}', STYLES='{"", "set"}',
+                                                 HDRS=hdrsets(["subject", "gen", "org", "ua", "hdr", "fromname", "toname"], ["utf8", "long", "badutf8", "crlf", "encword", "blanks", "quotes", "nul"]))))
+STAGES['C02']['quick'].append(
+    ('charsets-options', 'MimeBuild', cfg(MAXP='2', MAXE='1', MAXA='1', ENCS='{"qp", "b64"}', CCS='<<"crlf">>', CHARSETS='{"", "latin1"}', PCHARSETS='{"", "latin1", "utf8"}',
+                                          PDESCS='{"", "utf8", "longutf8", "crlf"}', FDESCS='{"", "utf8"}', FNAMES='{"", "utf8", "path"}')))
+STAGES['C02']['thorough'].append(
+    ('charsets-options', 'MimeBuild', cfg(MAXP='2', MAXE='1', MAXA='1', ENCS='{"qp", "b64", "8bit"}', CCS='<<"crlf">>', CHARSETS='{"", "latin1"}', PCHARSETS='{"", "latin1", "utf8"}', STYLES='{"", "set"}',
+                                          PDESCS=DESCCLS, FDESCS='{"", "utf8", "longutf8", "crlf"}', FNAMES=NAMECLS)))
+STAGES['C18']['quick'].append(
+    ('charsets', 'MimeBuild', cfg(MAXP='2', MAXE='0', MAXA='1', ENCS='{"qp", "b64"}', CCS='<<"crlf">>', CHARSETS='{"latin1"}', PCHARSETS='{"", "utf8"}',
+                                  HDRS=hdrsets(["subject", "gen"], ["utf8", "long", "words20", "dwords40", "blanks"]), PDESCS='{"", "longutf8"}', FNAMES='{"", "longutf8"}')))
+STAGES['C08']['quick'].append(
+    ('charsets', 'Smime', scfg(MAXP='2', MAXE='0', MAXA='1', ENCS='{"qp"}', SMIMES=KEYS2, CHARSETS='{"latin1"}', PCHARSETS='{"", "utf8"}',
+                               HDRS=hdrsets(["subject"], ["utf8", "long"]), PDESCS='{"", "utf8"}', FNAMES='{"", "longutf8"}', CCS='<<"crlf", "utf8">>')))
+
+
 def facts(begin):
     p = begin['prog']
     np, ne, na = len(p['parts']), len(p['embeds']), len(p['atts'])
@@ -330,7 +355,8 @@ def facts(begin):
          'no_body': np == 0, 'single_leaf': np + ne + na <= 1,
          'nested_multiparts': (1 if np > 1 else 0) + (1 if ne >= 1 and np + ne > 1 else 0) + (1 if na >= 1 and np + ne + na > 1 else 0) >= 2,
          'fault': (begin.get('fault') or {}).get('kind', 'none'), 'signed': bool(begin.get('signed')),
-         'key': (p.get('smime') or {}).get('key', ''), 'pgp': p.get('pgp', ''), 'has_pgp': bool(p.get('pgp'))}
+         'key': (p.get('smime') or {}).get('key', ''), 'pgp': p.get('pgp', ''), 'has_pgp': bool(p.get('pgp')),
+         'cs': p.get('cs', ''), 'pcs': p.get('pcs', '')}
     longish = ('long', 'utf8', 'longutf8', 'blanks', 'quotes', 'semi', 'token1000', 'encword')
     for s in p['embeds'] + p['atts']:
         if s['name'] in longish or s['desc'] in longish:
